@@ -17,7 +17,7 @@ SIZES = {
     "thorough": list(range(0, 41)) + [63, 64, 65, 127, 128, 129, 255, 256, 257],
 }
 # families whose cost grows quadratically or whose depth is limited by recursion get a cap
-CAPS = {"deep": 60, "cases": 130, "blocks": 130, "poly": 40, "rowpoly": 130, "funcs": 130}
+CAPS = {"reusedeep": 64, "deep": 60, "cases": 130, "blocks": 130, "poly": 40, "rowpoly": 130, "funcs": 130}
 
 
 def _host(host, in_types):
@@ -256,7 +256,36 @@ def reuse(host, n):
     return _finish(m, d)
 
 
-FAMILIES = {"wide": wide, "fanout": fanout, "chain": chain, "deep": deep, "cases": cases, "blocks": blocks, "loops": loops,
+def reusedeep(host, n):
+    """n spare nodes are created *before* a nested container X and deleted afterwards (highest first), then
+    nested DFGs are built inside X: they take the freed low indices, so parents, children and grandchildren
+    have indices in every relative order (a child below its parent below its grandparent ...)."""
+    from hugr import ops, tys
+    from hugr.std.logic import Not
+
+    m, d = _host(host, [tys.Bool])
+    (a,) = d.inputs()
+    spares = [d.add_op(ops.Noop(tys.Bool), a) for _ in range(n)]
+    x = d.add_nested(a)
+    for sp in reversed(spares):
+        d.hugr.delete_node(sp)
+    cur, w = x, x.inputs()[0]
+    levels = []
+    for _ in range(max(1, (n + 2) // 3)):
+        inner = cur.add_nested(w)
+        levels.append(inner)
+        cur, w = inner, inner.inputs()[0]
+    y = cur.add(Not(w), metadata={"leaf": True})
+    out = y[0]
+    for inner in reversed(levels):
+        inner.set_outputs(out)
+        out = inner.parent_node.out(0)
+    x.set_outputs(out)
+    d.set_outputs(x.parent_node.out(0))
+    return _finish(m, d)
+
+
+FAMILIES = {"reusedeep": reusedeep, "wide": wide, "fanout": fanout, "chain": chain, "deep": deep, "cases": cases, "blocks": blocks, "loops": loops,
             "funcs": funcs, "poly": poly, "rowpoly": rowpoly, "reuse": reuse}
 MODULE_ONLY = {"funcs", "poly", "rowpoly"}
 # `reuse` leaves re-added Noops whose outputs are unused (fine: Bool is copyable) -> still a valid HUGR
